@@ -10,8 +10,13 @@ namespace LndModel.C18
     They only mention the immutable fields `start, end_, width, delta`. -/
 structure Sound (M : MulDiv) (f : FeeFn) : Prop where
   le : f.start ≤ f.end_
+  /-- the width is that of a function built by the constructor from a `uint32` conf target
+      (`width = confTarget - 1`), so `l.width + 1` does not wrap. -/
+  wlt : f.width + 1 < u32Mod
   nonneg : ∀ p, p < f.width → 0 ≤ M f.delta p 1000
   mono : ∀ p q, p ≤ q → q < f.width → M f.delta p 1000 ≤ M f.delta q 1000
+  /-- the `int64` addition `startingFeeRate + feeRateDelta` does not overflow. -/
+  fits : ∀ p, p < f.width → InI64 (f.start + M f.delta p 1000)
 
 /-- two fee functions with the same schedule. -/
 def SameSched (f g : FeeFn) : Prop :=
@@ -26,9 +31,10 @@ theorem SameSched.trans {f g h : FeeFn} (a : SameSched f g) (b : SameSched g h) 
 
 theorem Sound.of_same {M : MulDiv} {f g : FeeFn} (h : SameSched f g) (s : Sound M f) : Sound M g := by
   obtain ⟨h1, h2, h3, h4⟩ := h
-  refine ⟨by rw [h1, h2]; exact s.le, ?_, ?_⟩
+  refine ⟨by rw [h1, h2]; exact s.le, by rw [h3]; exact s.wlt, ?_, ?_, ?_⟩
   · intro p hp; rw [h4]; rw [h3] at hp; exact s.nonneg p hp
   · intro p q hpq hq; rw [h4]; rw [h3] at hq; exact s.mono p q hpq hq
+  · intro p hp; rw [h4, h1]; rw [h3] at hp; exact s.fits p hp
 
 theorem rateAt_same {M : MulDiv} {f g : FeeFn} (h : SameSched f g) (p : Nat) :
     g.rateAt M p = f.rateAt M p := by
@@ -56,7 +62,7 @@ theorem start_le_rateAt {M : MulDiv} {f : FeeFn} (s : Sound M f) (p : Nat) : f.s
   · exact s.le
   · rename_i h
     have := s.nonneg p (by omega)
-    simp only []
+    simp only [wrap64_of_isI64 (s.fits p (by omega))]
     split
     · exact s.le
     · omega
@@ -70,7 +76,8 @@ theorem rateAt_mono {M : MulDiv} {f : FeeFn} (s : Sound M f) {p q : Nat} (h : p 
     unfold FeeFn.rateAt
     have hp : ¬ (p ≥ f.width) := by omega
     have hq' : ¬ (q ≥ f.width) := by omega
-    simp only [hp, hq', if_false]
+    simp only [hp, hq', if_false, wrap64_of_isI64 (s.fits p (by omega)),
+      wrap64_of_isI64 (s.fits q (by omega))]
     split <;> split <;> omega
 
 /-! ### invariant of the fee function state -/
@@ -113,7 +120,20 @@ theorem Inv.increaseTo {M : MulDiv} {f g : FeeFn} {p : Nat} {b : Bool} (s : Soun
     exact rateAt_of_ge M f hw
 
 theorem increment_spec {M : MulDiv} {f g : FeeFn} {b : Bool} (h : f.increment M = .ok (g, b)) :
-    f.increaseTo M (f.pos + 1) = .ok (g, b) := h
+    f.increaseTo M ((f.pos + 1) % u32Mod) = .ok (g, b) := h
+
+/-- below the max-position guard the `uint32` addition `position + 1` of `Increment` cannot wrap
+    (for a width that is itself a `uint32`). -/
+theorem increment_spec' {M : MulDiv} {f g : FeeFn} {b : Bool} (hw : f.width < u32Mod)
+    (h : f.increment M = .ok (g, b)) : f.increaseTo M (f.pos + 1) = .ok (g, b) := by
+  have h' := increment_spec h
+  have hlt : f.pos < f.width := by
+    unfold FeeFn.increaseTo at h'
+    split at h'
+    · cases h'
+    · omega
+  have e : (f.pos + 1) % u32Mod = f.pos + 1 := Nat.mod_eq_of_lt (by omega)
+  rw [e] at h'; exact h'
 
 theorem increaseFeeRate_spec {M : MulDiv} {f g : FeeFn} {ct : Nat} {b : Bool}
     (h : f.increaseFeeRate M ct = .ok (g, b)) :
@@ -138,7 +158,7 @@ theorem Inv.step {M : MulDiv} {f : FeeFn} (s : Sound M f) (i : Inv M f) (op : Op
     | error e => exact ⟨SameSched.refl f, i, Int.le_refl _⟩
     | ok r =>
       obtain ⟨g, b⟩ := r
-      have h' := increment_spec h
+      have h' := increment_spec' (by have := s.wlt; omega) h
       obtain ⟨hi, hle⟩ := Inv.increaseTo s i (by omega) h'
       exact ⟨(increaseTo_spec h').2.1, hi, hle⟩
   | ict ct =>
@@ -215,7 +235,7 @@ theorem newLinear_spec {M : MulDiv} {maxFeeRate : Int} {ct : Nat} {so est : Opti
     {f : FeeFn} (h : newLinear M maxFeeRate ct so est relay = .ok f) :
     f.end_ = maxFeeRate ∧ f.cur = f.start ∧ f.pos = 0 ∧
     ((ct ≤ 1 ∧ f.start = maxFeeRate ∧ f.width = 0) ∨
-     (2 ≤ ct ∧ f.width = ct - 1 ∧ f.delta = M (maxFeeRate - f.start) 1000 (ct - 1) ∧
+     (2 ≤ ct ∧ f.width = ct - 1 ∧ f.delta = M (wrap64 (maxFeeRate - f.start)) 1000 (ct - 1) ∧
       (so = some f.start ∨ (so = none ∧ estimateFeeRate ct est relay maxFeeRate = .ok f.start)))) := by
   unfold newLinear at h
   split at h
@@ -282,6 +302,77 @@ theorem estimate_bounds {ct : Nat} {est : Option Int} {relay maxFeeRate r : Int}
           intro hne
           have : ¬ (e > maxFeeRate) := fun hgt => h2 ⟨hne, hgt⟩
           omega
+
+/-! ### fixed-width side conditions discharged from the constructor / the types -/
+
+/-- a function built by the constructor from a `uint32` conf target has `width + 1 < 2^32`
+    (`width = confTarget - 1`): the `uint32` addition `l.width + 1` of `IncreaseFeeRate` never wraps. -/
+theorem newLinear_width_lt {M : MulDiv} {maxFeeRate : Int} {ct : Nat} {so est : Option Int} {relay : Int}
+    {f : FeeFn} (h : newLinear M maxFeeRate ct so est relay = .ok f) (hct : ct < u32Mod) :
+    f.width + 1 < u32Mod := by
+  obtain ⟨_, _, _, hcase⟩ := newLinear_spec h
+  simp only [u32Mod] at *
+  rcases hcase with ⟨_, _, hw⟩ | ⟨_, hw, _⟩ <;> omega
+
+/-- below the `uint32` maximum the new position is the exact `width + 1 - confTarget`. -/
+theorem newPos_exact {f : FeeFn} (hw : f.width + 1 < u32Mod) (ct : Nat) :
+    f.newPos ct = if ct < f.width + 1 then f.width + 1 - ct else 0 := by
+  unfold FeeFn.newPos
+  rw [Nat.mod_eq_of_lt hw]
+
+/-- a conf target `≤ 1` maps to a position at or beyond the width. -/
+theorem newPos_ge_width {f : FeeFn} (hw : f.width + 1 < u32Mod) {c : Nat} (hc : c ≤ 1) :
+    f.width ≤ f.newPos c := by
+  rw [newPos_exact hw]; split <;> omega
+
+/-- WITNESS that `width + 1 < 2^32` is needed: at `width = 2^32 - 1` (not constructible through
+    `NewLinearFeeFunction`) `l.width + 1` wraps to 0 and conf target 1 maps to position 0. -/
+theorem newPos_wrap_witness : (FeeFn.mk 0 100 0 4294967295 0 0).newPos 1 = 0 := by decide
+
+/-- the conf target handed to the fee function is an `int32` delta: always below `2^31`. -/
+theorem calcCurrentConfTarget_lt (height deadline : Int) :
+    calcCurrentConfTarget height deadline < 2147483648 := by
+  unfold calcCurrentConfTarget
+  simp only []
+  by_cases h : wrap32 (deadline - height) < 0
+  · simp only [h, if_true]; omega
+  · simp only [h, if_false]
+    simp only [wrap32] at h ⊢
+    omega
+
+/-- inside the `int32` range of the difference (always the case for non-negative heights) the
+    conf target is the exact `max 0 (deadline - height)`. -/
+theorem calcCurrentConfTarget_exact {height deadline : Int}
+    (h : -2147483648 ≤ deadline - height ∧ deadline - height < 2147483648) :
+    calcCurrentConfTarget height deadline = if deadline - height < 0 then 0 else (deadline - height).toNat := by
+  unfold calcCurrentConfTarget
+  have e : wrap32 (deadline - height) = deadline - height := by simp only [wrap32]; omega
+  simp only [e]
+
+/-- `FeeForWeight` is the exact `⌊rate·wu/1000⌋` (truncated towards zero) when the weight and
+    the product fit `int64`. -/
+theorem feeForWeight_exact {rate : Int} {wu : Nat} (hw : InI64 (wu : Int)) (hp : InI64 (rate * wu)) :
+    feeForWeight rate wu = Int.tdiv (rate * wu) 1000 := by
+  unfold feeForWeight
+  rw [wrap64_of_isI64 hw, wrap64_of_isI64 hp]
+
+/-- … in particular it is non-negative for a non-negative rate. -/
+theorem feeForWeight_nonneg {rate : Int} {wu : Nat} (h0 : 0 ≤ rate) (hw : InI64 (wu : Int))
+    (hp : InI64 (rate * wu)) : 0 ≤ feeForWeight rate wu := by
+  rw [feeForWeight_exact hw hp]
+  have : (0 : Int) ≤ rate * wu := Int.mul_nonneg h0 (Int.natCast_nonneg _)
+  rw [Int.tdiv_eq_ediv_of_nonneg this]
+  omega
+
+/-- … and monotone in the rate. -/
+theorem feeForWeight_mono {r1 r2 : Int} {wu : Nat} (h0 : 0 ≤ r1) (h : r1 ≤ r2) (hw : InI64 (wu : Int))
+    (hp : InI64 (r2 * wu)) : feeForWeight r1 wu ≤ feeForWeight r2 wu := by
+  have hle : r1 * wu ≤ r2 * wu := Int.mul_le_mul_of_nonneg_right h (Int.natCast_nonneg _)
+  have h1 : (0 : Int) ≤ r1 * wu := Int.mul_nonneg h0 (Int.natCast_nonneg _)
+  have hp1 : InI64 (r1 * wu) := by simp only [InI64] at hp ⊢; omega
+  rw [feeForWeight_exact hw hp1, feeForWeight_exact hw hp,
+    Int.tdiv_eq_ediv_of_nonneg h1, Int.tdiv_eq_ediv_of_nonneg (by omega)]
+  omega
 
 /-! ### sums -/
 
